@@ -35,6 +35,7 @@ def check(ctx, tier):
     values_state(ctx, tk)
     scalar_expansion(ctx, tk)
     equality_compares_keys(ctx, tk)
+    keys_values_apart(ctx, tk)
     fs = [f for q, f in ctx.program.funcs.items() if q.startswith("hashtable.")]
     hazards.h2_argmax_of_mask(ctx, tk, "C11.b", fs)
     W.report(ctx, tk, "C11.j", fs)
@@ -580,3 +581,24 @@ def equality_compares_keys(ctx, tk):
         ctx.decide("C11.g", f, what, True if (keys_cmp or const_false or facts_keys) else False,
                    "`%s` answers without comparing the keys: two tables over different key sets with the same (scalar) value compare equal" % ast.unparse(r.ast),
                    node=r.ast, key="eq-keys:%d" % getattr(r, "lineno", 0), engine="E4")
+
+
+def keys_values_apart(ctx, tk):
+    """keys and values have their own dtypes (uint64 keys, float values ...): one numpy array built from both
+    (column_stack / stack / array / concatenate) promotes them to a common type, and keys above 2**53 are rounded"""
+    what = "keys and values are never combined into one array (each keeps its own dtype)"
+    n = 0
+    for q, f in sorted(ctx.program.funcs.items()):
+        if not q.startswith("hashtable."):
+            continue
+        fa = ctx.fa(f)
+        for nd, c in find_calls(fa, lambda c: np_call(c, {"column_stack", "stack", "vstack", "hstack", "array", "asarray", "concatenate", "dstack"}) and c.a[1]):
+            arg = c.a[1][0]
+            has_k = any((attr_chain(x) or ("",))[-1] == "_keys" for x in walk(arg))
+            has_v = any((attr_chain(x) or ("",))[-1] in ("_values",) or (x.k == "call" and x.a[0].k == "attr" and x.a[0].a[1] == "_flat_values") for x in walk(arg))
+            if has_k and has_v:
+                n += 1
+                ctx.violated("C11.h", f, what, "`%s` builds one array from keys and values: numpy promotes both to one dtype (uint64 keys with signed or float values go "
+                             "through float64), so large keys are rounded or merged" % (c,), node=c.node, key="coercion", engine="KB")
+    if not n:
+        ctx.holds("C11.h", HT + "to_dict", what, key="coercion", engine="KB")
